@@ -121,7 +121,7 @@ def run_check(prop_id, tier, harnesses, level_explanation, trusted_base=(), extr
     known = load_known()
     os.makedirs(os.path.join(VERIF, 'evidence'), exist_ok=True)
     os.makedirs(os.path.join(VERIF, 'replays'), exist_ok=True)
-    per = []; violations = []; known_lines = []; problems = []
+    per = []; violations = []; known_lines = []; problems = []; partial = []
     total = Stats(); samples = []; nontrivial = 0
 
     for name, fn in extra_selfchecks:
@@ -198,7 +198,10 @@ def run_check(prop_id, tier, harnesses, level_explanation, trusted_base=(), extr
             if not tr['found']:
                 problems.append(f'{h.name}: planted-defect twin was NOT reported violated (harness cannot see failures)')
         if not r['exhausted'] and not r['err'] and not violations:
-            problems.append(f'{h.name}: path tree not exhausted inside budget ({h.budget_s}s / max_paths {h.max_paths})')
+            msg = f'{h.name}: path tree not exhausted inside budget ({h.budget_s}s / max_paths {h.max_paths})'
+            # quick tier: the bounded claim must be complete, anything else is inconclusive (exit 2).  thorough tier: the deepest exploration that fits the
+            # budget on this machine; an unfinished tree is reported as PARTIAL (claim restricted to the explored paths, evidence exhaustive=false), not as a pass
+            (partial if tier == 'thorough' else problems).append(msg)
         per.append(rec)
 
     wall = time.time() - t0
@@ -218,7 +221,8 @@ def run_check(prop_id, tier, harnesses, level_explanation, trusted_base=(), extr
                     'a region of the symbolic input space); non-trivial = the path reached the oracle with a real observation '
                     '(e.g. a returned frame set, a publish, a file operation); paths are distinct by construction',
             'samples': samples[:6] or [{'note': 'no completed path sample'}],
-            'exhaustive': all(x.get('worklist_exhausted', True) for x in per if 'harness' in x) and not problems,
+            'exhaustive': all(x.get('worklist_exhausted', True) for x in per if 'harness' in x) and not problems and not partial,
+            'not_exhausted': partial,
             'harnesses': per,
             'paths_complete': st['paths'], 'paths_pruned': st['pruned'], 'solver_queries': st['queries'],
             'direct_obligations': st['obligations'], 'solver_s': round(st['solver_s'], 2),
@@ -238,6 +242,11 @@ def run_check(prop_id, tier, harnesses, level_explanation, trusted_base=(), extr
     if problems:
         for pr in problems: print(f'INCONCLUSIVE property={prop_id} {pr}')
         return EXIT_INCONCLUSIVE
+    if partial:
+        for pr in partial: print(f'PARTIAL property={prop_id} {pr}')
+        print(f'[{prop_id}] PARTIAL tier={tier}: no violation on the {st["paths"]} paths explored ({st["queries"]} solver queries, {wall:.0f}s); the harnesses listed above '
+              f'did not exhaust their path tree inside the time budget, so the bounded claim is restricted to the explored paths for them (evidence: exhaustive=false)')
+        return EXIT_OK
     if known_lines:
         print(f'[{prop_id}] PASS tier={tier}: no violation other than the {len(set(known_lines))} recorded known finding(s) within the stated bounds '
               f'({st["paths"]} paths, {st["queries"]} solver queries, {wall:.0f}s)')
